@@ -170,7 +170,7 @@ func (c15) Run(e *Env) {
 	if !mid {
 		// wait for the pipeline to drain, then Stop (flushes unfinished accepting runs)
 		prev := -1
-		for round := 0; round < 12; round++ {
+		for round := 0; round < 400; round++ { // until a whole settle period brings no progress
 			if err := e.Settle(time.Duration(e.C.Settle)); err != nil {
 				e.R.Discard = "settle: " + err.Error()
 				return
